@@ -157,6 +157,31 @@ def run_program(ck, rng, meshes, grids, prog, centred, lead, routes, stats, mode
                 a.uxgrid.face_node_connectivity.values[:] = keep_fn
     except Exception as ex:
         ck.fail("raises", {"program": [["x", "copy_deep"]]}, {"op": "copy_deep_probe"}, detail=repr(ex))
+    # ... and independent CACHES: after the copy's coordinates were replaced through the public setter, what one of the
+    # two grids converts (and caches) must not be what the other one hands out
+    if rng.random() < 0.25:
+        try:
+            def segs(gr):
+                return sorted(tuple(np.round(np.asarray(sg, dtype=float), 9).ravel().tolist()) for sg in gr.to_linecollection().get_segments())
+
+            def polys(gr):
+                pc = gr.to_polycollection()
+                pc = pc[0] if isinstance(pc, tuple) else pc
+                return sorted(tuple(np.round(np.asarray(pp.vertices, dtype=float), 9).ravel().tolist()) for pp in pc.get_paths())
+            fresh = ux.Grid.from_topology(np.array(g.node_lon.values), np.array(g.node_lat.values),
+                                          np.array(g.face_node_connectivity.values), fill_value=FILL)
+            want_l, want_p = segs(fresh), polys(fresh)
+            tmp = a.copy()
+            tmp.uxgrid.node_lon = tmp.uxgrid.node_lon * 0.5
+            first, second = (tmp.uxgrid, a.uxgrid) if rng.random() < 0.5 else (a.uxgrid, tmp.uxgrid)
+            segs(first); polys(first)
+            segs(second); polys(second)
+            if segs(a.uxgrid) != want_l or polys(a.uxgrid) != want_p:
+                ck.fail("deep_copy_grid_not_independent", {"meshes": [{"nodes": m.nodes, "faces": m.faces} for m in meshes],
+                                                           "centred": centred, "lead": lead, "program": []},
+                        {"op": "copy_deep", "what": "conversion_cache_shared"})
+        except Exception as ex:
+            ck.fail("raises", {"program": [["x", "copy_deep"]]}, {"op": "copy_deep_cache_probe"}, detail=repr(ex))
     case = {"meshes": [{"nodes": m.nodes, "faces": m.faces} for m in meshes], "centred": centred, "lead": lead,
             "program": [list(p) for p in prog]}
     for step, op in enumerate(prog):
@@ -170,7 +195,7 @@ def run_program(ck, rng, meshes, grids, prog, centred, lead, routes, stats, mode
                     or (name in ("assign_coords", "sortby", "drop_vars") and "t" not in a.coords and name != "assign_coords") \
                     or (name in ("transpose", "T") and a.ndim < 2) or (name == "expand_dims" and "z" in a.dims):
                 continue
-            plain = xr.DataArray(np.array(a.values), dims=a.dims, coords={k: v.values for k, v in a.coords.items() if k in a.dims},
+            plain = xr.DataArray(np.array(a.values), dims=a.dims, coords={k: (v.dims, np.array(v.values)) for k, v in a.coords.items()},
                                  name=a.name)
             try:
                 want = fn(plain)
@@ -194,6 +219,11 @@ def run_program(ck, rng, meshes, grids, prog, centred, lead, routes, stats, mode
             if tuple(r.dims) != tuple(want.dims) or not arr_equal(np.asarray(r.values), np.asarray(want.values), equal_nan=True):
                 ck.fail("values_differ_from_plain_xarray", case_s, info,
                         detail="dims %s vs %s" % (r.dims, want.dims))
+            elif set(map(str, r.coords)) != set(map(str, want.coords)) or \
+                    any(not arr_equal(np.asarray(r.coords[c].values), np.asarray(want.coords[c].values), equal_nan=True) for c in want.coords):
+                # same values but other coordinates (e.g. a scalar coordinate that drop=True must remove)
+                ck.fail("values_differ_from_plain_xarray", case_s, dict(info, what="coords"),
+                        detail="coords %s vs %s" % (sorted(map(str, r.coords)), sorted(map(str, want.coords))))
             if deep:
                 cur_grid = r.uxgrid
                 cur_gen += 1
